@@ -34,7 +34,7 @@ func (x *xorW) Write(p []byte) (int, error) {
 	n, err := x.w.Write(q)
 	return n, err
 }
-func (x *xorW) Close() error     { return nil }
+func (x *xorW) Close() error      { return nil }
 func (x *xorW) Reset(w io.Writer) { x.w = w }
 
 type xorR struct{ r io.Reader }
